@@ -87,3 +87,36 @@ func VerifH_C09_real_chain() {
 	verifrt.Assert(ea.VerifAllClosed() && eb.VerifAllClosed(), "every deployed plugin (including the schema probes) was closed")
 	verifrt.Assert(verifrt.LiveGoroutines() == 0, "no goroutine survives the run")
 }
+
+// Composition with every outcome of the REAL steps: the run returns; it yields the output exactly when
+// both plugins succeeded; the second plugin is never executed unless the first produced its output;
+// nothing stays deployed or running.
+func VerifH_C01_real_chain_outcomes() {
+	ea, eb := plugin.VerifNewLazyEnv(), plugin.VerifNewLazyEnv()
+	steps := []vRealStep{
+		{id: "a", env: ea, fields: map[string]any{"input": verifStepInput(vx("input"))}},
+		{id: "b", env: eb, fields: map[string]any{"input": verifStepInput(vx("steps", "a", "outputs", "success", "v"))}},
+	}
+	ew := verifPrepareReal(steps, map[string]any{"success": map[any]any{"r": vx("steps", "b", "outputs", "success", "v")}})
+	run := newRun()
+	in := verifrt.NondetVal("input")
+	ea.VerifSetLazy(true)
+	eb.VerifSetLazy(true)
+	res := verifExecute(ew, run, tWorkflow{}, in)
+	verifrt.Assert(!res.stuck, "the run returns once all steps have finished or failed")
+	verifrt.Assert((res.err == nil) != (res.id == ""), "Execute returns either an output or an error, never both or neither")
+	both := ea.VerifSucceeded() && eb.VerifSucceeded()
+	if both {
+		verifrt.Reach("output")
+		verifrt.Assert(res.err == nil && res.id == "success", "both steps succeeded: the output is returned")
+	} else {
+		verifrt.Reach("error")
+		verifrt.Assert(res.err != nil, "a step did not produce its success output: the run returns an error")
+	}
+	if eb.VerifExecuted() > 0 {
+		verifrt.Assert(ea.VerifSucceeded(), "the second plugin is executed only if the first produced the output it consumes")
+	}
+	verifrt.Settle()
+	verifrt.Assert(ea.VerifAllClosed() && eb.VerifAllClosed(), "every deployed plugin (including the schema probes) was closed")
+	verifrt.Assert(verifrt.LiveGoroutines() == 0, "no goroutine survives the run")
+}
